@@ -60,34 +60,44 @@ OrderFor(p) == IF SortVariant = "common" THEN Order(dict)
                       [] p = "mu"  -> OrderBy(dict, LAMBDA m : << m.mu[1] >>)
                       [] p = "se"  -> OrderBy(dict, LAMBDA m : << m.se[1] >>)
                       [] OTHER     -> OrderBy(dict, LAMBDA m : << m.sm[1] >>)
-AllowedList(p, md) == ListAlong(dict, OrderFor(p), p, md)
-OrderedNames == NamesAlong(dict, Order(dict))
+\* (the order is bound ONCE through a singleton set: TLC passes operator arguments unevaluated, and `ord[r]` inside ListAlong
+\* would otherwise sort the dictionary again for every element of every list)
+AllowedList(p, md) == CHOOSE l \in { ListAlong(dict, o, p, md) : o \in { OrderFor(p) } } : TRUE
+OrderedNames == CHOOSE l \in { NamesAlong(dict, o) : o \in { Order(dict) } } : TRUE
 
 \* ---------- properties ----------
 TypeOK == /\ Len(dict) <= MaxMats
           /\ \A k \in 1..Len(dict) : \A q \in 1..4 : FormatOK(dict[k].src[Props[q]]) /\ Len(dict[k].m[Props[q]]) = 9
 
-NormalForm == \A k \in 1..Len(dict) : \A q \in 1..4 : Represents(dict[k].m[Props[q]], dict[k].src[Props[q]])
+\* The per-entry invariants look at the entry appended LAST only.  This loses nothing: the state space is prefix-closed
+\* (a dictionary is only ever reached from its own prefix, and TLC checks every reachable state), so entry k was examined
+\* in the state in which it was appended, and every pair (k1, k2) in the state in which the later of the two was appended.
+Newest == IF Len(dict) = 0 THEN {} ELSE { Len(dict) }
+
+NormalForm == \A k \in Newest : \A q \in 1..4 : Represents(dict[k].m[Props[q]], dict[k].src[Props[q]])
 
 FormatIndependent ==
-    /\ \A k1 \in 1..Len(dict), k2 \in 1..Len(dict) : \A q1 \in 1..4, q2 \in 1..4 :
+    /\ \A k2 \in Newest : \A k1 \in 1..Len(dict) : \A q1 \in 1..4, q2 \in 1..4 :
           SameTensor(dict[k1].src[Props[q1]], dict[k2].src[Props[q2]]) => dict[k1].m[Props[q1]] = dict[k2].m[Props[q2]]
     \* and over the whole input universe, once
     /\ dict = << >> => \A a \in EpsInputs, b \in EpsInputs : SameTensor(a, b) => Normalize(a, NormVariant) = Normalize(b, NormVariant)
 
 PredicatesAgree ==
-    \A k \in 1..Len(dict) : \A q \in 1..4 :
+    \A k \in Newest : \A q \in 1..4 :
         LET t == dict[k].m[Props[q]]  inp == dict[k].src[Props[q]]
         IN  /\ TupleIsIsotropic(t) = TensorIsIsotropic(inp)
             /\ TupleIsDiagonal(t)  = TensorIsDiagonal(inp)
             /\ (TupleIsIsotropic(t) => TupleIsDiagonal(t))
 
 Perms(n) == { f \in [ 1..n -> 1..n ] : { f[r] : r \in 1..n } = 1..n }
+\* everything the implementation returns in this state, computed once: the name list and the 12 property lists
+Returned == [ names |-> OrderedNames, lists |-> [ q \in 1..4 |-> [ md \in 1..3 |-> AllowedList(Props[q], Modes[md]) ] ] ]
 CommonOrder ==
+    \E ret \in { Returned } :
     \E ord \in Perms(Len(dict)) :
-        /\ OrderedNames = NamesAlong(dict, ord)
-        /\ \A q \in 1..4, md \in 1..3 : AllowedList(Props[q], Modes[md]) = ListAlong(dict, ord, Props[q], Modes[md])
+        /\ ret.names = NamesAlong(dict, ord)
+        /\ \A q \in 1..4, md \in 1..3 : ret.lists[q][md] = ListAlong(dict, ord, Props[q], Modes[md])
 
 \* the documented order: ascending in (eps_xx, mu_xx, se_xx, sm_xx), every material exactly once
-SortedOrder == IsPermutation(Order(dict), Len(dict)) /\ NonDecreasing(dict, Order(dict))
+SortedOrder == \E o \in { Order(dict) } : IsPermutation(o, Len(dict)) /\ NonDecreasing(dict, o)
 =======================================================================
